@@ -100,9 +100,9 @@ def make_optimizer(cfg):
     if cls == "rg":
         return ScriptedRG(**kw)
     if cls == "real-hyper":
-        return RealHyper(max_repeats=4, methods=["greedy"], progbar=False, parallel=False, **kw)
+        return RealHyper(max_repeats=4, methods=["greedy"], optlib="random", progbar=False, parallel=False, **kw)
     if cls == "real-rg":
-        return RealRG(max_repeats=4, seed=7, **kw)
+        return RealRG(max_repeats=4, seed=7, parallel=False, **kw)
     raise ValueError(cls)
 
 
@@ -139,12 +139,36 @@ def _as_query(q):
             "sizes": dict(q["sizes"])}
 
 
+def con_summary(q, con):
+    try:
+        st = path_struct(q, con["path"])
+    except Exception:  # noqa: BLE001  (a path stored for another number of tensors)
+        st = None
+    return {"struct": st, "path": _jsonable(con["path"]),
+            "score": float(con["score"]), "sliced": sorted(con["sliced_inds"])}
+
+
+def disk_entry(cfg, q, k):
+    """the entry file of key `k`, unpickled by the harness itself (None if absent/unreadable)"""
+    d = cfg.get("directory")
+    if not d:
+        return None
+    p = os.path.join(d, *k) if isinstance(k, tuple) else os.path.join(d, k)
+    try:
+        with open(p, "rb") as f:
+            return con_summary(q, pickle.load(f))
+    except Exception:  # noqa: BLE001
+        return None
+
+
 def observe_op(opt, cfg, op):
     """Run one query on `opt`; return the observation (JSON-able dict)."""
     q = _as_query(op["q"])
     Script.current = op.get("ans")
     before = Script.searches
     obs = {"api": op.get("api", "search")}
+    k0 = key_of(cfg, q, opt.directory_split)
+    obs["disk_before"] = disk_entry(cfg, q, k0)
     try:
         if obs["api"] == "call":
             path = opt(q["inputs"], q["output"], q["sizes"])
@@ -170,6 +194,14 @@ def observe_op(opt, cfg, op):
         obs["outcome"] = "raised:" + type(e).__name__
         obs["msg"] = str(e)[:200]
     obs["searches"] = Script.searches - before
+    obs["disk_after"] = disk_entry(cfg, q, k0)
+    obs["searched_con"] = None
+    if obs["searches"]:
+        try:
+            last = opt.last_opt
+            obs["searched_con"] = con_summary(q, opt._deconstruct_tree(last, last.tree))
+        except Exception as e:  # noqa: BLE001
+            obs["searched_con"] = {"error": repr(e)[:100]}
     # the stored entry of this query's key, as this process' DiskDict now sees it
     split = opt.directory_split
     k = key_of(cfg, q, split)
@@ -178,14 +210,14 @@ def observe_op(opt, cfg, op):
         mem = opt._cache[k]
     except Exception:  # noqa: BLE001
         mem = None
-    obs["stored"] = None if mem is None else {
-        "struct": path_struct(q, mem["path"]), "score": float(mem["score"]),
-        "sliced": sorted(mem["sliced_inds"])}
+    obs["stored"] = None if mem is None else con_summary(q, mem)
     return obs
 
 
 def job_session(cfg, ops):
     """One process, one optimizer object, a list of queries."""
+    import warnings
+    warnings.simplefilter("ignore")
     Script.searches = 0
     opt = make_optimizer(cfg)
     out = [observe_op(opt, cfg, op) for op in ops]
